@@ -75,6 +75,8 @@ def cases(draw):
           'flow': draw(st.booleans()), 'dynamic': draw(st.booleans()), 'max_retries': draw(st.sampled_from([1, 2])),
           'pause_after': draw(st.sampled_from([None, None, None, 25, 120, 600])),
           'ratio_reset': ratio_reset,
+          # RELAY_METHOD: rules send each series to the destinations of its rule only (nothing is re-hashed to the others)
+          'method': draw(st.sampled_from(['consistent-hashing', 'consistent-hashing', 'rules'])),
           'ops': ops}
 
 
@@ -200,7 +202,7 @@ def judge(ctx, case, t):
 
 def classify(case, t):
   classes = [case['protocol'], 'dests=%d' % case['ndest'], 'flow' if case['flow'] else 'noflow',
-             'dynamic' if case['dynamic'] else 'static']
+             'dynamic' if case['dynamic'] else 'static', 'method=' + case.get('method', 'consistent-hashing')]
   nt = False
   ev = t.events
   # disconnect with non-empty queue followed by reconnect
